@@ -9,17 +9,17 @@ unset GOTOOLCHAIN GOSUMDB 2>/dev/null || true
 export GOFLAGS=-mod=mod GOPROXY=off
 ./setup.sh >/dev/null 2>&1 || { echo "setup failed"; exit 2; }
 run() { s=$(date +%s); out=$(timeout ${TO:-3600} ./bin/gosym run "$@" 2>&1 | grep -E "^load|^FAIL|ABORT|^covers" | cut -c1-260 | head -4); echo "== $* ($(( $(date +%s)-s ))s)"; echo "$out"; }
-run cont.H_ReplacedSibling L=4 order_schemes=2
-run cont.H_TwoGroups order_schemes=2
-run cont.H_ScopeChurn L=8 order_schemes=4
-run cont.H_TypedErrors order_schemes=2
-run cont.H_EmptyIn order_schemes=2
-run cont.H_Hist profile=0 n=2 nodes=4 L=1 order_schemes=2 twin=1
-run cont.H_Hist profile=7 n=3 nodes=4 L=1 order_schemes=2 as2=0
-run cont.H_Faults order_schemes=2 leaf3=1
-run cont.H_Build profile=0 n=3 order_schemes=2
-run graphh.H_C19 N=3 L=2 order_schemes=4 raw_start=1
-run cont.H_Order profile=2 n=3 order_schemes=2
+# ran clean on 9024762: run cont.H_ReplacedSibling L=4 order_schemes=2
+# ran clean on 9024762: run cont.H_TwoGroups order_schemes=2
+# ran clean on 9024762: run cont.H_ScopeChurn L=8 order_schemes=4
+# ran clean on 9024762: run cont.H_TypedErrors order_schemes=2
+# ran clean on 9024762: run cont.H_EmptyIn order_schemes=2
+# ran clean on 9024762: run cont.H_Hist profile=0 n=2 nodes=4 L=1 order_schemes=2 twin=1
+# ran clean on 9024762: run cont.H_Hist profile=7 n=3 nodes=4 L=1 order_schemes=2 as2=0
+# ran clean on 9024762: run cont.H_Faults order_schemes=2 leaf3=1
+# ran clean on 9024762: run cont.H_Build profile=0 n=3 order_schemes=2
+# ran clean on 9024762: run graphh.H_C19 N=3 L=2 order_schemes=4 raw_start=1
+run cont.H_Order profile=2 n=2 order_schemes=4
 run cont.H_KeyedLifetimes order_schemes=4
 run cont.H_Builtins order_schemes=2
 run cont.H_Conc ops=1 order_schemes=1 worlds=1 vars=3 g2=2 closeerr=1 opset=4
